@@ -24,6 +24,10 @@ $(B)/sw_%: sweeps/%.c $(ENGINE) $(HDRS) $(LIB) sweeps/sweep.h
 	@mkdir -p $(B)
 	$(CC) $(CFLAGS) -Isweeps -DCAT_UNSOLICITED_CMD_BUFFER_SIZE=1 $(ENGINE) $< $(REPO)/src/cat.c -o $@
 
+$(B)/sw_scale: sweeps/scale.c $(LIB)
+	@mkdir -p $(B)
+	$(CC) $(CFLAGS) -DCAT_UNSOLICITED_CMD_BUFFER_SIZE=1 $< $(REPO)/src/cat.c -o $@
+
 $(B)/sw_longrun_r%: sweeps/longrun.c $(ENGINE) $(HDRS) $(LIB) sweeps/sweep.h
 	@mkdir -p $(B)
 	$(CC) $(CFLAGS) -Isweeps -DCAT_UNSOLICITED_CMD_BUFFER_SIZE=$* $(ENGINE) $< $(REPO)/src/cat.c -o $@
